@@ -178,6 +178,8 @@ func runC12(c *core.Ctx) {
 	c.Rule("R2", "without look-back the result is independent of the clock", 6)
 	c.Rule("R3", "read-only instances enter a shard only through the inclusion predicate, whose table is exact", 4)
 	c.Rule("R4", "partition variant seeds with ShuffleShardSeed(identifier, \"\")", 1)
+	c.Rule("R7", "a shard is cached only if the ring's topology did not change since it was computed (shared with C13.R3)", 2)
+	c.Rule("R6", "public wrappers: the walk is skipped only for size ≤ 0; identifier and size passed on unchanged", 2)
 	c.Rule("R5", "out-of-range partition shard size falls back to the number of all partitions", 1)
 	pkg := c.Prog.Pkg("ring")
 	sp := c.Prog.Pkg("ring/shard")
@@ -289,6 +291,34 @@ func runC12(c *core.Ctx) {
 			return true
 		})
 		c.Check(len(got) == 1 && got[0] == "len(recv.desc.Partitions)", "R5", "func=(*PartitionRing).shuffleShard:size", fn.Pos(), fmt.Sprintf("size replaced by %v when out of range (must be the number of all partitions so the walk can still reach inactive partitions inside the look-back window)", got), 1)
+	}
+	c13Fills(c, pkg, "R7")
+	// ---- R6: the public wrappers skip the sharding walk only for size <= 0 and pass identifier and size on unchanged
+	for _, name := range []string{"Ring.ShuffleShard", "Ring.ShuffleShardWithLookback"} {
+		fn := an.FindFunc(pkg, name)
+		if fn == nil {
+			c.Miss("R6", "func="+name, "not found")
+			continue
+		}
+		c.Analysed(fn.String())
+		g := fn.Graph()
+		all := fn.CallsTo(false, "ring", "(*Ring).filterOutReadOnlyInstances")
+		walk := fn.CallsTo(false, "ring", "(*Ring).shuffleShard")
+		if len(all) != 1 || len(walk) != 1 {
+			c.Undec("R6", "func="+name, fn.Pos(), fmt.Sprintf("expected one filterOutReadOnlyInstances and one shuffleShard call, found %d/%d", len(all), len(walk)))
+			continue
+		}
+		t := an.Table{G: g, From: g.EntryLoc(), MayOnly: true, FreeUnknown: true, Atoms: []an.Atom{{Name: "size", Values: []string{"lt", "eq", "gt"}}},
+			Binder: &an.Binder{Fn: fn, Cmp: map[string]string{"p1|0": "size"}}, Targets: []an.Loc{g.Locate(all[0].Expr), g.Locate(walk[0].Expr)}, Names: []string{"all instances", "walk"},
+			Want: func(r an.Row, i int) an.Tri {
+				if (r["size"] == "gt") == (i == 0) {
+					return an.F
+				}
+				return an.U
+			}}
+		res := t.Run()
+		argsOK := fn.Canon(walk[0].Expr.Args[0]) == "p0" && fn.Canon(walk[0].Expr.Args[1]) == "p1"
+		c.Check(res.OK() && argsOK, "R6", "func="+name, fn.Pos(), fmt.Sprintf("all eligible instances are returned without walking only when size ≤ 0, the walk runs only when size > 0 — whatever else is tested — with identifier and size unchanged (=%v): %s", argsOK, res.Summary()), res.Rows)
 	}
 }
 
